@@ -12,11 +12,12 @@ import (
 
 func init() {
 	checks["C09"] = checkC09
-	explanations["C09"] = "Structural necessary conditions (E2 tables extracted from the code and compared with each other, plus two E1 gates): every kex.Suite constant has exactly one RegisterKeyExchangeSuite call and vice versa; every RegisterCipherSuite names a registered encrypt algorithm, a MAC algorithm that is 0 or registered with MacAlg!=0 iff the encrypt algorithm has AD=false, and a PRF hash of SHA-256/384 (the sizes nistkdf.KDF accepts); CipherSuiteByName and CipherSuiteID.String are inverse over the same id set which covers every registered id; every signature algorithm that the device-sig-type mapping accepts or SignatureAlgorithmFor returns is registered (HashFunc total on them); every KeyType/KeyEncoding constant is handled by the public-key parser; on both sides Suite.New is reached only after Suite.Valid and kex.Available (so a forbidden or unavailable combination is an error, never a silent substitute). Also the decision table of kex.Suite.Valid: the set of (device class, owner class, suite) triples accepted — read off the conjunctions of branch conditions along every CFG path to `return true`, no execution — equals the FDO 1.1 section 3.6.5 table over the whole finite class domain. Not decided: that the ~750 valid tuples actually complete onboarding (that is a run), nor Suite.Valid's truth table."
+	explanations["C09"] = "Structural necessary conditions (E2 tables extracted from the code and compared with each other, plus two E1 gates): every kex.Suite constant has exactly one RegisterKeyExchangeSuite call and vice versa; every RegisterCipherSuite names a registered encrypt algorithm, a MAC algorithm that is 0 or registered with MacAlg!=0 iff the encrypt algorithm has AD=false, and a PRF hash of SHA-256/384 (the sizes nistkdf.KDF accepts); CipherSuiteByName and CipherSuiteID.String are inverse over the same id set which covers every registered id; every signature algorithm that the device-sig-type mapping accepts or SignatureAlgorithmFor returns is registered (HashFunc total on them); every KeyType/KeyEncoding constant is handled by the public-key parser; on both sides Suite.New is reached only after Suite.Valid and kex.Available (so a forbidden or unavailable combination is an error, never a silent substitute). Also the decision table of kex.Suite.Valid: the set of (device class, owner class, suite) triples accepted — read off the conjunctions of branch conditions along every CFG path to `return true`, no execution — equals the FDO 1.1 section 3.6.5 table over the whole finite class domain; and (interval analysis, block size symbolic) the CBC padder produces and the unpadder accepts exactly pad sizes 1..blockSize. Not decided: that the ~750 valid tuples actually complete onboarding (that is a run), nor Suite.Valid's truth table."
 }
 
 func checkC09(c *Ctx, p *Prog, r *Result) {
 	c09SuiteValidTable(p, r)
+	c09PaddingRanges(p, r)
 	// (a) key exchange suites
 	r.rule("C09.kex-registry", "kex.Suite constants and RegisterKeyExchangeSuite calls are in bijection")
 	r.floor("C09.kex-registry", 6)
